@@ -341,9 +341,13 @@ class SparselyBin(Factory, Container):
                 self.nanflow.fill(datum, weight)
             else:
                 b = self.bin(q)
-                if b not in self.bins:
-                    self.bins[b] = self.value.copy()
-                self.bins[b].fill(datum, weight)
+                if b in self.bins:
+                    self.bins[b].fill(datum, weight)
+                else:
+                    # only keep the new bin if filling it did not raise (for rollback)
+                    newbin = self.value.copy()
+                    newbin.fill(datum, weight)
+                    self.bins[b] = newbin
             # no possibility of exception from here on out (for rollback)
             self.entries += weight
 
